@@ -4,6 +4,7 @@ import (
 	"bytes"
 	"fmt"
 	"net"
+	"time"
 
 	"github.com/refraction-networking/conjure/pkg/transports"
 	pb "github.com/refraction-networking/conjure/proto"
@@ -139,8 +140,11 @@ func (Transport) WrapConnection(data *bytes.Buffer, c net.Conn, phantom net.IP, 
 
 		mc := transports.PrependToConn(c, data)
 		wrapped, err := factory.WrapConn(mc)
+		if err != nil {
+			return nil, nil, err
+		}
 
-		return r, wrapped, err
+		return r, &deadlineConn{Conn: wrapped, underlying: c}, nil
 	}
 
 	// If we read more than min handshake len, but less than max and didn't find
@@ -154,6 +158,19 @@ func (Transport) WrapConnection(data *bytes.Buffer, c net.Conn, phantom net.IP, 
 	// for the given phantom.
 	return nil, nil, transports.ErrNotTransport
 }
+
+// deadlineConn gives the wrapped obfs4 connection working deadlines. The obfs4 library's conn
+// answers every Set*Deadline call with ENOTSUP, but the station clears the classification deadline
+// and sets the proxy stall deadlines on the connection returned by WrapConnection. All obfs4 I/O
+// ends up on the underlying connection, so the deadlines are applied there.
+type deadlineConn struct {
+	net.Conn
+	underlying net.Conn
+}
+
+func (d *deadlineConn) SetDeadline(t time.Time) error      { return d.underlying.SetDeadline(t) }
+func (d *deadlineConn) SetReadDeadline(t time.Time) error  { return d.underlying.SetReadDeadline(t) }
+func (d *deadlineConn) SetWriteDeadline(t time.Time) error { return d.underlying.SetWriteDeadline(t) }
 
 // This function makes the assumption that any identifier with length 52 is an obfs4 registration.
 // This may not be strictly true, but any other identifier will simply fail to form a connection and
